@@ -815,6 +815,8 @@ func (e *Engine) doReturn(s *State, f *Frame, res Value) {
 	caller := g.frames[len(g.frames)-1]
 	if f.retIdx >= 0 {
 		caller.locals[f.retIdx] = res
+	} else if f.retIdx == -2 {
+		caller.scratch = res
 	}
 }
 
@@ -941,6 +943,21 @@ func (e *Engine) invoke(s *State, f *Frame, fnv Value, method *types.Func, args 
 		fv, ok := fnv.(*FuncV)
 		if !ok {
 			e.errf("call of %T", fnv)
+		}
+		if fv.Builtin == "@swap" {
+			sl := fv.Bindings[0].(*SliceV)
+			i := e.concretize(s, args[0].(*Term), "swap i")
+			j := e.concretize(s, args[1].(*Term), "swap j")
+			off := e.concretize(s, sl.Off, "swap off")
+			pi := &Pointer{Obj: sl.Base.Obj, Path: append(append([]int(nil), sl.Base.Path...), int(off+i))}
+			pj := &Pointer{Obj: sl.Base.Obj, Path: append(append([]int(nil), sl.Base.Path...), int(off+j))}
+			vi, vj := e.load(s, pi), e.load(s, pj)
+			e.store(s, pi, vj)
+			e.store(s, pj, vi)
+			if advance {
+				f.ip++
+			}
+			return
 		}
 		if fv.Builtin != "" {
 			res := e.builtin(s, f, fv.Builtin, args, site)
